@@ -1,4 +1,6 @@
 import SafeNet.Proofs.StoreReach
+import SafeNet.Proofs.StoreIds
+import SafeNet.Proofs.StoreStart
 import SafeNet.Proofs.StoreCipher
 /-!
 # C02 — a restarted node never serves corrupted records and keeps completed writes
@@ -82,31 +84,6 @@ theorem lookup_crashDisk_of_no_write (s : St) (torn : List (Nat × Nat)) (k : Na
         exact lookup_insert_ne this _ _
       · rfl
   exact this s.disk
-
-theorem mem_scanIndex {cfg : Cfg} {disk : List (Nat × File)} {k : Nat} {rt : RType} :
-    (k, rt) ∈ scanIndex cfg disk ↔ ∃ f, (k, f) ∈ disk ∧ scanEntry cfg k f = some rt := by
-  induction disk with
-  | nil => simp [scanIndex]
-  | cons x xs ih =>
-    obtain ⟨k', f'⟩ := x
-    simp only [scanIndex]
-    split
-    · rename_i rt' hst
-      simp only [List.mem_cons, Prod.mk.injEq, ih]
-      constructor
-      · rintro (⟨rfl, rfl⟩ | ⟨f, hf, hs⟩)
-        · exact ⟨f', .inl ⟨rfl, rfl⟩, hst⟩
-        · exact ⟨f, .inr hf, hs⟩
-      · rintro ⟨f, (⟨rfl, rfl⟩ | hf), hs⟩
-        · rw [hst] at hs; cases hs; exact .inl ⟨rfl, rfl⟩
-        · exact .inr ⟨f, hf, hs⟩
-    · rename_i hst
-      simp only [List.mem_cons, Prod.mk.injEq, ih]
-      constructor
-      · rintro ⟨f, hf, hs⟩; exact ⟨f, .inr hf, hs⟩
-      · rintro ⟨f, (⟨rfl, rfl⟩ | hf), hs⟩
-        · rw [hst] at hs; cases hs
-        · exact ⟨f, hf, hs⟩
 
 /-- **Completed writes survive.** If the file of `k` is completely written (`full v`, a record with a valid
 header) and no write of `k` is pending — its last write task ran and no later put of `k` was issued;
@@ -242,6 +219,139 @@ example :
       get cfg (step cfg d (run cfg d ops) (.crash [])).1 1 = none := by
   decide
 
+/-! ## the start-up step outside the record store: `check_and_wipe_storage_dir_if_necessary`
+
+`NetworkBuilder::build_node` runs it at every start before the store is opened (`Model/StoreStart`): it compares
+`<root>/network_key_version` with the current network id and, on mismatch, wipes the record-store directory and
+rewrites the file. `Op.crash` above is a stop followed by a start that finds its own id in the version file; the
+theorems below say why that is all a restart with the same identity can be — also when starts are interrupted. -/
+
+/-- what rs2lean read from driver.rs: the version file is truncated and rewritten only inside the branch
+`cur_version_str != prev_version_str`; inside it the wipe comes first; `build_node` runs the check with
+`get_network_id()` before it configures the store -/
+theorem version_file_written_only_on_mismatch :
+    Gen.Startup.versionWrittenOnlyOnMismatch = true ∧ Gen.Startup.wipeBeforeVersionWrite = true ∧
+      Gen.Startup.checkedAtEveryStart = true := by decide
+
+/-- **Same network id: the step performs no file-system effect at all.** -/
+theorem start_same_id_has_no_effect (cur : Text) : startupEffects (some cur) cur = [] := startupEffects_same cur
+
+/-- **A start for the same network id, completed or interrupted at ANY point** (after any number of effects, any
+number of bytes into a write, any part of a wipe), **leaves the version file and every record file untouched.** -/
+theorem start_same_id_untouched (d : Dir) (cur : Text) (h : d.vfile = some cur) :
+    completeStart d cur = d ∧ ∀ i : Intr, interruptedStart d cur i = d :=
+  ⟨completeStart_same d cur h, fun i => interruptedStart_same d cur i h⟩
+
+/-- **`restart_keeps_completed` for histories containing interrupted starts.** A node (running or down) whose version
+file holds its network id: after any number of starts with that id interrupted anywhere, followed by a completed
+start, the node is up, the version file is as before, and every completely written record with no pending write is
+served with exactly its value and is listed. -/
+theorem restart_keeps_completed_interrupted_starts (cfg : Cfg) (dist : Nat → Nat) (n : Node) (cur : Text)
+    (hv : n.vfile = some cur) (hd : (keys n.st.disk).Nodup) (is : List Intr) (k v : Nat)
+    (hfile : lookup k n.st.disk = some (.full v)) (hq : ∀ i v rt, (i, Task.write k v rt) ∉ n.st.tasks)
+    (hhdr : hdrClass v ≠ .bad) :
+    let n' := nrunFrom cfg dist n (interrupts cur is ++ [.start cur none])
+    n'.up = true ∧ n'.vfile = some cur ∧ get cfg n'.st k = some (.whole v) ∧ contains n'.st k = true := by
+  intro n'
+  have hn' : n' = { up := true, vfile := some cur, st := restart cfg dist n.st.disk n.st.hist n.st.nextId } :=
+    interrupted_starts_then_start cfg dist cur is n hv
+  rw [hn']
+  have := restart_keeps_completed cfg dist n.st hd [] rfl k v hfile hq hhdr
+  rw [step_crash_nil] at this
+  exact ⟨rfl, rfl, this.1, this.2⟩
+
+/-- the same for completed removals: a key without a file and without a pending write stays removed -/
+theorem restart_removed_interrupted_starts (cfg : Cfg) (dist : Nat → Nat) (n : Node) (cur : Text)
+    (hv : n.vfile = some cur) (is : List Intr) (k : Nat)
+    (hfile : lookup k n.st.disk = none) (hq : ∀ i v rt, (i, Task.write k v rt) ∉ n.st.tasks) :
+    let n' := nrunFrom cfg dist n (interrupts cur is ++ [.start cur none])
+    get cfg n'.st k = none ∧ contains n'.st k = false ∧ lookup k n'.st.disk = none := by
+  intro n'
+  have hn' : n' = { up := true, vfile := some cur, st := restart cfg dist n.st.disk n.st.hist n.st.nextId } :=
+    interrupted_starts_then_start cfg dist cur is n hv
+  rw [hn']
+  have := restart_removed_stay_removed cfg dist n.st [] rfl k hfile hq
+  rw [step_crash_nil] at this
+  exact this
+
+/-- …for the node after **any** node history (store operations, crashes, completed and interrupted starts with any
+ids): file names are unique in every reachable node (`NDiskOK.run`) -/
+theorem restart_keeps_completed_node_history (cfg : Cfg) (dist : Nat → Nat) (nops : List NOp) (cur : Text)
+    (hv : (nrun cfg dist nops).vfile = some cur) (is : List Intr) (k v : Nat)
+    (hfile : lookup k (nrun cfg dist nops).st.disk = some (.full v))
+    (hq : ∀ i v rt, (i, Task.write k v rt) ∉ (nrun cfg dist nops).st.tasks) (hhdr : hdrClass v ≠ .bad) :
+    let n' := nrunFrom cfg dist (nrun cfg dist nops) (interrupts cur is ++ [.start cur none])
+    n'.up = true ∧ n'.vfile = some cur ∧ get cfg n'.st k = some (.whole v) ∧ contains n'.st k = true :=
+  restart_keeps_completed_interrupted_starts cfg dist _ cur hv (NDiskOK.run cfg dist nops) is k v hfile hq hhdr
+
+/-- **Whatever starts a history holds — any ids, completed or interrupted anywhere — a node serves nothing or a whole
+value previously validated for that key** (record encryption on): the step only ever removes record files. -/
+theorem node_history_sound (cfg : Cfg) (henc : cfg.encrypt = true) (dist : Nat → Nat) (nops : List NOp) (k : Nat) (r : Read)
+    (h : get cfg (nrun cfg dist nops).st k = some r) :
+    ∃ v rt, r = .whole v ∧ NOp.store (.put k v rt) ∈ nops := by
+  have hs : Sound (fun k v => ∃ rt, NOp.store (.put k v rt) ∈ nops) (nrun cfg dist nops).st :=
+    Sound.nrunFrom nops (Sound.init cfg dist) (fun op ho k v rt e => ⟨rt, e ▸ ho⟩)
+  obtain ⟨⟨rt, hp⟩, hw⟩ := hs.get h
+  obtain ⟨v, rfl⟩ := hw henc
+  exact ⟨v, rt, rfl, hp⟩
+
+/-- **A start for another network id** (the file holds another text, is empty or torn, or is absent) **wipes**: when
+it completes, the version file holds the new id and no record file is left. -/
+theorem start_other_id_wipes (cfg : Cfg) (dist : Nat → Nat) (n : Node) (cur : Text)
+    (h : (cur != n.vfile.getD []) = true) :
+    let n' := (nstep cfg dist n (.start cur none)).1
+    n'.up = true ∧ n'.vfile = some cur ∧ n'.st.index = [] ∧ n'.st.disk = [] := by
+  simp [nstep, completeStart_mismatch ⟨n.vfile, n.st.disk⟩ cur h, restart, scanIndex]
+
+/-- **…and when it is interrupted**, at any point: record files may already be gone (never altered, never added), and
+the new id is in the version file only if the wipe has completed. -/
+theorem interrupted_start_other_id (d : Dir) (cur : Text) (i : Intr) (h : (cur != d.vfile.getD []) = true) :
+    (interruptedStart d cur i).disk.Sublist d.disk ∧
+      ((interruptedStart d cur i).vfile = some cur → (interruptedStart d cur i).disk = []) :=
+  ⟨interruptedStart_disk_sublist d cur i, interruptedStart_mismatch d cur i h⟩
+
+/-- so after any number of interrupted starts for the new id, a completed start for it leaves no record of the old
+network behind (the version file never names the new id over an unwiped store) -/
+theorem other_id_interrupted_then_complete_wipes (d : Dir) (cur : Text) (hc : cur ≠ []) (h : d.vfile ≠ some cur)
+    (is : List Intr) :
+    completeStart (is.foldl (fun d i => interruptedStart d cur i) d) cur = ⟨some cur, []⟩ := by
+  have hw : WipedIfNamed cur d := fun e => absurd e h
+  clear h
+  induction is generalizing d with
+  | nil => exact completeStart_of_wipedIfNamed hc hw
+  | cons i is ih => exact ih _ (hw.interrupted hc i)
+
+/-- an empty version file — what a start interrupted between truncating and writing leaves — makes the next start
+wipe every record, whatever the id: this is why no start with the node's own id may touch the file -/
+theorem empty_version_file_wipes (disk : List (Nat × File)) (id : Nat) :
+    completeStart ⟨some [], disk⟩ (idText id) = ⟨some (idText id), []⟩ := by
+  apply completeStart_mismatch
+  simpa using idText_ne_nil id
+
+/-- **The statements depend on the generated flag**: a source that rewrites the version file at every start performs
+`truncate; write` for the node's own id; interrupted between the two the file is empty, and the next start with the
+same id wipes a completely written record. -/
+theorem unconditional_rewrite_witness :
+    startupEffectsWith false true (some (idText 1)) (idText 1) = [.truncate, .write (idText 1)] ∧
+    applyEff ⟨some (idText 1), [(7, .full 3)]⟩ .truncate = ⟨some [], [(7, .full 3)]⟩ ∧
+    completeStart ⟨some [], [(7, .full 3)]⟩ (idText 1) = ⟨some (idText 1), []⟩ := by
+  decide
+
+/-- non-vacuity: a node gets its version file (`start` on a fresh directory), stores key 1, is stopped and started
+twice with an interruption (before anything / "after two effects" — there are none), then started: key 1 is served;
+a later start for network id 2 interrupted after the wipe, then completed, leaves nothing and names id 2 -/
+example :
+    let cfg := Cfg.shipped 4 2
+    let d : Nat → Nat := fun k => k
+    let ops : List NOp := [.start (idText 1) none, .store (.put 1 3 .chunk), .store (.run 2), .store (.deliver 2),
+      .start (idText 1) (some ⟨0, 0, []⟩), .start (idText 1) (some ⟨2, 1, [1]⟩), .start (idText 1) none]
+    (nrun cfg d ops).vfile = some (idText 1) ∧ get cfg (nrun cfg d ops).st 1 = some (.whole 3) ∧
+    (nrun cfg d (ops ++ [.start (idText 2) (some ⟨1, 0, []⟩)])).vfile = some (idText 1) ∧
+    (nrun cfg d (ops ++ [.start (idText 2) (some ⟨1, 0, []⟩)])).st.disk = [] ∧
+    (nrun cfg d (ops ++ [.start (idText 2) (some ⟨1, 0, []⟩), .start (idText 2) none])).vfile = some (idText 2) ∧
+    get cfg (nrun cfg d (ops ++ [.start (idText 2) (some ⟨1, 0, []⟩), .start (idText 2) none])).st 1 = none := by
+  decide
+
 /-! ## the AEAD clause of the model follows from the laws of an ideal cipher
 
 `Proofs/StoreCipher.lean`: record files as byte strings under an abstract authenticated cipher `C` with the laws
@@ -364,4 +474,16 @@ example :
 #print axioms SafeNet.Props.C02.ideal_cipher_exists
 #print axioms SafeNet.Props.C02.restart_no_encrypt_witness
 #print axioms SafeNet.Props.C02.restart_torn_absent_example
+#print axioms SafeNet.Props.C02.version_file_written_only_on_mismatch
+#print axioms SafeNet.Props.C02.start_same_id_has_no_effect
+#print axioms SafeNet.Props.C02.start_same_id_untouched
+#print axioms SafeNet.Props.C02.restart_keeps_completed_interrupted_starts
+#print axioms SafeNet.Props.C02.restart_removed_interrupted_starts
+#print axioms SafeNet.Props.C02.restart_keeps_completed_node_history
+#print axioms SafeNet.Props.C02.node_history_sound
+#print axioms SafeNet.Props.C02.start_other_id_wipes
+#print axioms SafeNet.Props.C02.interrupted_start_other_id
+#print axioms SafeNet.Props.C02.other_id_interrupted_then_complete_wipes
+#print axioms SafeNet.Props.C02.empty_version_file_wipes
+#print axioms SafeNet.Props.C02.unconditional_rewrite_witness
 end SafeNet.Props.C02
